@@ -48,6 +48,24 @@ from solvor.types import Result
 __all__ = ["articulation_points", "bridges"]
 
 
+def _undirected_adjacency[S](node_list: list[S], neighbors: Callable[[S], Iterable[S]]) -> dict[S, list[S]]:
+    """Symmetric adjacency without self loops, duplicates or nodes outside the graph.
+
+    An edge listed by only one of its endpoints is still an undirected edge (kcore treats it the same way).
+    """
+    node_set = set(node_list)
+    adj: dict[S, list[S]] = {v: [] for v in node_list}
+    seen: set[tuple[S, S]] = set()
+    for v in node_list:
+        for w in neighbors(v):
+            if w in node_set and w != v and (v, w) not in seen:
+                seen.add((v, w))
+                seen.add((w, v))
+                adj[v].append(w)
+                adj[w].append(v)
+    return adj
+
+
 def articulation_points[S](
     nodes: Iterable[S],
     neighbors: Callable[[S], Iterable[S]],
@@ -62,7 +80,7 @@ def articulation_points[S](
     if n <= 1:
         return Result(set(), 0, 0, n)
 
-    node_set = set(node_list)
+    adj = _undirected_adjacency(node_list, neighbors)
     discovery: dict[S, int] = {}
     low: dict[S, int] = {}
     parent: dict[S, S | None] = {}
@@ -79,10 +97,7 @@ def articulation_points[S](
         low[v] = time[0]
         time[0] += 1
 
-        for w in neighbors(v):
-            if w not in node_set:
-                continue
-
+        for w in adj[v]:
             if w not in discovery:
                 children += 1
                 parent[w] = v
@@ -125,7 +140,7 @@ def bridges[S](
     if n <= 1:
         return Result([], 0, 0, n)
 
-    node_set = set(node_list)
+    adj = _undirected_adjacency(node_list, neighbors)
     discovery: dict[S, int] = {}
     low: dict[S, int] = {}
     parent: dict[S, S | None] = {}
@@ -141,10 +156,7 @@ def bridges[S](
         low[v] = time[0]
         time[0] += 1
 
-        for w in neighbors(v):
-            if w not in node_set:
-                continue
-
+        for w in adj[v]:
             if w not in discovery:
                 parent[w] = v
                 dfs(w)
